@@ -1,0 +1,43 @@
+//go:build verif
+
+package tlsutils
+
+// Contracts for the verification framework in /verif (comment-only file,
+// compiled only with -tags verif; see /verif/DESIGN.md).
+
+//@ # ---------------------------------------------------------------- C18: what is handed to crypto/tls
+//@ func standardCipherSuites()
+//@   ensures len(result) == 9 && fresh(arr(result))
+
+//@ func TLSClientConfiguration(certPath, keyPath, caCertPaths)
+//@   let r0 = old(calls(os.ReadFile))
+//@   let a0 = old(calls(CertPool.AppendCertsFromPEM))
+//@   let p0 = old(calls(x509.NewCertPool))
+//@   let c0 = old(calls(certreload.NewCertReloader))
+//@   ensures err != nil ==> result0 == nil
+//@   ensures [server-verification-on] err == nil ==> (result0 != nil && fresh(result0) && !result0.InsecureSkipVerify &&
+//@     result0.VerifyPeerCertificate == nil && result0.VerifyConnection == nil && result0.ServerName == "" &&
+//@     result0.MinVersion == 771 && result0.MaxVersion == 0)
+//@   ensures [roots-are-a-fresh-pool] err == nil ==> (calls(x509.NewCertPool) == p0 + 1 && result0.RootCAs == ret(x509.NewCertPool, p0, 0) &&
+//@     result0.RootCAs != nil && calls(x509.SystemCertPool) == old(calls(x509.SystemCertPool)))
+//@   ensures [every-configured-ca-file-loaded] err == nil ==> (calls(os.ReadFile) == r0 + len(caCertPaths) &&
+//@     calls(CertPool.AppendCertsFromPEM) == a0 + len(caCertPaths) &&
+//@     forall(i, 0 <= i && i < len(caCertPaths),
+//@       arg(os.ReadFile, r0 + i, 0) == caCertPaths[i] && ret(os.ReadFile, r0 + i, 1) == nil &&
+//@       arg(CertPool.AppendCertsFromPEM, a0 + i, 0) == ret(x509.NewCertPool, p0, 0) &&
+//@       arg(CertPool.AppendCertsFromPEM, a0 + i, 1) == ret(os.ReadFile, r0 + i, 0) &&
+//@       ret(CertPool.AppendCertsFromPEM, a0 + i, 0)))
+//@   ensures [client-certificate-from-the-reloader] err == nil ==> (calls(certreload.NewCertReloader) == c0 + 1 &&
+//@     ret(certreload.NewCertReloader, c0, 1) == nil && result0.GetClientCertificate != nil &&
+//@     closureRecv(result0.GetClientCertificate) == ret(certreload.NewCertReloader, c0, 0) &&
+//@     closureName(result0.GetClientCertificate) == "GetClientCertificate$bound")
+//@   loop 1:
+//@     invariant calls(x509.NewCertPool) == p0 + 1 && caCertPool == ret(x509.NewCertPool, p0, 0) && caCertPool != nil
+//@     invariant calls(os.ReadFile) == r0 + rangeindex + 1 && calls(CertPool.AppendCertsFromPEM) == a0 + rangeindex + 1
+//@     invariant calls(x509.SystemCertPool) == old(calls(x509.SystemCertPool)) && calls(certreload.NewCertReloader) == c0 + 1 &&
+//@       ret(certreload.NewCertReloader, c0, 1) == nil && reloader == ret(certreload.NewCertReloader, c0, 0)
+//@     invariant forall(i, 0 <= i && i <= rangeindex,
+//@       arg(os.ReadFile, r0 + i, 0) == caCertPaths[i] && ret(os.ReadFile, r0 + i, 1) == nil &&
+//@       arg(CertPool.AppendCertsFromPEM, a0 + i, 0) == ret(x509.NewCertPool, p0, 0) &&
+//@       arg(CertPool.AppendCertsFromPEM, a0 + i, 1) == ret(os.ReadFile, r0 + i, 0) &&
+//@       ret(CertPool.AppendCertsFromPEM, a0 + i, 0))
